@@ -2,6 +2,8 @@ package props
 
 import (
 	"fmt"
+	"reflect"
+	"strings"
 
 	"github.com/gregoryv/mq"
 
@@ -74,7 +76,7 @@ func c12Value(g *gen.G, d *ref.PropDef) drv.Op {
 func c12Will(g *gen.G) *ref.Will {
 	t := g.T
 	w := &ref.Will{QoS: byte(t.Int(3)), Retain: t.Bool(1, 2)}
-	w.Topic = g.Str(g.Len1())
+	w.Topic = g.Topic()
 	w.Payload = g.Bin(g.Len())
 	for _, d := range ref.AllowedIn(ref.WillScope) {
 		if d.ID == 0x18 || !t.Bool(1, 3) {
@@ -208,6 +210,9 @@ func c12Op(g *gen.G, typ byte) drv.Op {
 		case 2:
 			return flag("retain")
 		case 3:
+			if t.Bool(1, 4) {
+				return drv.Op{Kind: "topic", B: g.Topic()}
+			}
 			return str("topic")
 		case 4:
 			return u16("packetid")
@@ -375,7 +380,11 @@ func c12Profile(g *gen.G, typ byte) []drv.Op {
 		}
 		prop(0x1F)
 	case ref.Subscribe:
-		out = append(out, drv.Op{Kind: "filters", Fs: []ref.Filter{{Name: append([]byte("$share/g/"), g.Filter()...), Opts: 0x04 | byte(t.Int(3))}}},
+		name := append([]byte("$share/g/"), g.Filter()...)
+		if len(name) > 65535 {
+			name = name[:65535] // MQTT's limit for a string
+		}
+		out = append(out, drv.Op{Kind: "filters", Fs: []ref.Filter{{Name: name, Opts: 0x04 | byte(t.Int(3))}}},
 			drv.Op{Kind: "prop", ID: 0x0B, N: g.Varint()})
 	}
 	return out
@@ -421,8 +430,83 @@ func wireView(m *ref.AP) *ref.AP {
 var c12Types = []byte{ref.Connect, ref.ConnAck, ref.Publish, ref.PubAck, ref.PubRec, ref.PubRel, ref.PubComp,
 	ref.Subscribe, ref.SubAck, ref.Unsubscribe, ref.UnsubAck, ref.Disconnect, ref.Auth}
 
+// c12Long: a long history of adder calls on one packet - user properties with
+// key and value at the largest length, added one call at a time until the
+// property section has 131 MB (thorough: 267 MB, just below the 268 435 455
+// bytes a property length can say). Every call must add its pair; the frame
+// must carry them all.
+func c12Long(c *sim.Ctx) *sim.Violation {
+	t := c.T
+	n := 1000
+	if c.Thorough {
+		n = 2040
+	}
+	key := strings.Repeat("k", 65535)
+	val := strings.Repeat("v", 65535-t.Int(3))
+	type adder interface {
+		mq.Packet
+		AddUserProp(...string)
+	}
+	var p adder
+	switch t.Int(4) {
+	case 0:
+		p = mq.NewPublish()
+	case 1:
+		p = mq.NewConnAck()
+	case 2:
+		p = mq.NewDisconnect()
+	default:
+		p = mq.NewPubAck()
+	}
+	typ := typeName(drv.TypeOf(p))
+	for i := 0; i < n; i++ {
+		p.AddUserProp(key, val)
+		if i%97 == 0 {
+			p.AddUserProp("n", fmt.Sprint(i)) // a small pair now and then
+		}
+		if got := len(userPropsOf(p)); got != i+1+i/97+1 {
+			return sim.V("C12/"+typ+"/long-adder-history/accessor", "after %d AddUserProp calls (pairs of 65535+%d bytes, a small pair every 97th) the packet holds %d user properties, want %d", i+1+i/97+1, len(val), got, i+1+i/97+1)
+		}
+	}
+	want := len(userPropsOf(p))
+	b, err, pi := encodeReal(p)
+	if pi != nil || err != nil {
+		return sim.V("C12/"+typ+"/long-adder-history/encode", "%d user properties (%d MB): WriteTo failed: %v %v", want, want*131077/1000000, err, pi)
+	}
+	a, derr := ref.Decode(b, false)
+	got := 0
+	if derr == nil {
+		for _, pr := range a.Props {
+			if pr.ID == 0x26 {
+				got++
+			}
+		}
+	}
+	if derr != nil || got != want {
+		return sim.V("C12/"+typ+"/long-adder-history/frame", "%d user properties set; the frame of %d bytes carries %d (strict reading: %v)", want, len(b), got, derr)
+	}
+	c.Count(fmt.Sprintf("probe.long-adder-history-%d-pairs-of-the-largest-size", n))
+	return nil
+}
+
+func userPropsOf(p mq.Packet) mq.UserProperties {
+	v := reflect.ValueOf(p)
+	if v.Kind() == reflect.Ptr {
+		v = v.Elem()
+	}
+	f := v.FieldByName("UserProperties")
+	if !f.IsValid() {
+		return nil
+	}
+	u, _ := f.Interface().(mq.UserProperties)
+	return u
+}
+
 func runC12(c *sim.Ctx) *sim.Violation {
 	t := c.T
+	if c.Run == 21 {
+		return c12Long(c)
+	}
 	g := gen.NewG(t, c.Thorough, 2) // up to two boundary-size arguments (16383..65535 bytes) per history
 	typ := c12Types[t.Int(len(c12Types))]
 	name := ref.TypeNames[typ]
